@@ -931,7 +931,10 @@ def block_level_page_break(sibling_before, sibling_after):
                 ('column', 'avoid-page'),
                 ('column', 'avoid-column'),
                 ('avoid', 'auto'),
+                ('avoid', 'avoid-page'),
+                ('avoid', 'avoid-column'),
                 ('avoid-page', 'auto'),
+                ('avoid-page', 'avoid-column'),
                 ('avoid-column', 'auto')):
             result = value
 
